@@ -30,6 +30,12 @@ def _ints(seq):
     return [int(v) for v in seq]
 
 
+def _colcount(pos, cells):
+    """A plain module-level generator (no closure) whose value depends on the world's own table: position code + number of
+    columns the table has when the layer is built."""
+    return 100 * pos[0] + 10 * pos[1] + pos[2] + len(cells.columns)
+
+
 class GridDriver:
     def __init__(self):
         self.events = []
@@ -224,6 +230,9 @@ class GridDriver:
                     def __call__(self, pos, cells):
                         return 100 * pos[0] + 10 * pos[1] + pos[2] + k
                 gen = _G()
+        elif kind == "colcount":
+            k = len(w.cells.columns)        # what the generator will see (an input of the call, logged as the layer's offset)
+            gen = _colcount
         elif kind == "halfcall":
             # a distance-decay style generator: a whole number (an int) at the first cell, fractions (n + 0.5) everywhere else
             first = [True]
@@ -317,7 +326,7 @@ class GridDriver:
             self.kof[name] = k
             self.reps = getattr(self, "reps", {})
             self.reps[name] = {"mixlist": "mix", "farray": "f", "fconst": "bool0", "halfcall": "half"}.get(kind)
-        self.events.append({"op": "add_cell_component", "name": name, "kind": {"roarray": "array", "farray": "array", "tconst": "constant", "tconst3": "constant", "fconst": "constant", "halfcall": "callable", "bigcall": "callable", "mixlist": "list", "tuplist": "list"}.get(kind, kind), "k": k, "vals": vals, "dims": self.dims,
+        self.events.append({"op": "add_cell_component", "name": name, "kind": {"roarray": "array", "farray": "array", "tconst": "constant", "tconst3": "constant", "fconst": "constant", "halfcall": "callable", "colcount": "callable", "bigcall": "callable", "mixlist": "list", "tuplist": "list"}.get(kind, kind), "k": k, "vals": vals, "dims": self.dims,
                             "out": outcome(exc), "cols": self.cols()})
 
     def op_mutate(self, name):
@@ -419,7 +428,7 @@ def c11_random_program(rng, max_ext=3, length=10):
     for _ in range(length):
         r = rng.random()
         if r < 0.55:
-            prog.append(["add", rng.choice(names), rng.choice(["callable", "callable", "bigcall", "halfcall", "constant", "fconst", "tconst", "tconst3", "list", "mixlist", "tuplist", "array", "farray", "roarray", "lookup", "lookup", "halve", "halve"]), rng.choice([0, 3, 5, -4])])
+            prog.append(["add", rng.choice(names), rng.choice(["callable", "callable", "bigcall", "halfcall", "colcount", "colcount", "constant", "fconst", "tconst", "tconst3", "list", "mixlist", "tuplist", "array", "farray", "roarray", "lookup", "lookup", "halve", "halve"]), rng.choice([0, 3, 5, -4])])
         elif r < 0.7:
             prog.append(["mutate", rng.choice(names)])
         elif r < 0.9:
